@@ -139,6 +139,57 @@ CHECKS = {
          'offending relation, and E204/E401 must make add() fail.',
     note='Trusted: TLC, the flattening of the loaded lexicon into relational form, relations.json (snapshot of wn.constants).',
     design='DESIGN.md section 4 C18'),
+ 'C04': dict(
+    engine='query',
+    category='model_checking',
+    technique='TLA+ WnQuery (S, E, default mode, LexIds) with MC_World/MC_Scope (TLC: InScope, Insensitive over every add/remove history); '
+              'battery of all query/navigation/relation calls under 11-15 selections recorded before and after outside lexicons come and go, judged by TLC',
+    text='The query model defines for every Wordnet configuration the selected and expand lexicons and, per entity, the lexicons it may see; '
+         'TLC proves on a fixed small world under every history of add/remove that all results stay in the selection (family in default mode) '
+         'and that results of a restricted wordnet are insensitive to lexicons outside selection and expand set (incl. unselected extensions). '
+         'Random worlds (two versions of one id, extension, other-language lexicon sharing ILIs) are queried through every public method; TLC '
+         'checks membership in the selection, exact forms/tags/examples/definitions/counts visibility, and a functional monitor compares each '
+         'configuration before/after removing and re-adding every outside lexicon.',
+    note='Trusted: TLC, materialiser, observer naming entities by (lexicon specifier, id). Two listed known findings (forms / tags of unselected extensions).',
+    design='DESIGN.md section 4 C04'),
+ 'C10': dict(
+    engine='query',
+    category='model_checking',
+    technique='TLA+ WnQuery navigation operators with MC_World/MC_Nav (TLC: InverseLaws, TranslateSymmetric, NoTranslateWithoutIli); '
+              'recorded word()/synset()/senses()/synsets()/words()/translate()/==/hash on random worlds judged by TLC',
+    text='DeclWord/DeclSynset, rank-ordered sense lists, image laws and Translate are TLA+ operators; TLC proves the inverse laws and symmetry of '
+         'translation on every installed-set of a small world. On random worlds with two versions of a lexicon, extensions attaching senses to '
+         'base entries/synsets, repeated/proposed/absent ILIs, every entity is navigated under default, single, multiple and language selections; '
+         'TLC checks the declared targets, rank order, images in order, inverse membership, translation sets, and ==/hash agreement of objects '
+         'reached by different routes.',
+    note='Trusted: TLC, materialiser. Order among senses of equal rank is unspecified and accepted in any order.',
+    design='DESIGN.md section 4 C10'),
+ 'C11': dict(
+    engine='query',
+    category='model_checking',
+    technique='TLA+ WnQuery relations/closure/paths; MC_Query (TLC: the queue+visited and agenda algorithms refine Closure/RelPaths on all digraphs <=3 nodes); '
+              'recorded relations()/get_related()/relation_map()/get_related_synsets()/closure()/relation_paths() judged by TLC',
+    text='Visible relation rows (defining lexicon and target lexicon both visible from the source), relation keys with dc:type, reachability and '
+         'maximal simple paths are TLA+ operators; TLC proves that transcriptions of the closure and relation_paths algorithms terminate and equal '
+         'the declarative definitions on every relation graph of the bound. Random relation multigraphs (self-loops, cycles, parallel relations '
+         'of different type/dc:type, duplicates, non-standard types, metadata) over base+extension(+extension) worlds are queried in five to seven '
+         'scopes with seven type-argument sets; TLC compares key sets, targets per name, metadata, closures and path sets; non-termination is a '
+         'timeout violation.',
+    note='Trusted: TLC, materialiser. Expand lexicons are off in this check (C12).',
+    design='DESIGN.md section 4 C11'),
+ 'C12': dict(
+    engine='query',
+    category='model_checking',
+    technique='TLA+ WnQuery ExpandedPairs/placeholders with MC_World/MC_Expand (TLC: ExpandEmptyIsOwn, DefaultExpandIsInstalledDeps, BorrowedNeedIli); '
+              'recorded relations under seven expand settings judged by TLC',
+    text='Borrowing by ILI (sources in E sharing the ILI, relation and target inside E, targets without ILI dropped, back-mapping to all synsets '
+         'of the selection with the target ILI or a placeholder, relation keeping the expand lexicon source/target/lexicon) is one TLA+ operator; '
+         'TLC proves the structural theorems on every installed-set of a small world. Random L/E/F worlds with overlapping, repeated, proposed, '
+         'absent ILIs and declared/undeclared/missing dependencies are queried with expand in {default, empty, E, E F, F, *, unknown}; TLC checks '
+         'expanded_lexicons(), the warning about missing dependencies, own-first order, target sets, placeholders followed two more steps and '
+         'hypernym paths through placeholders.',
+    note='Trusted: TLC, materialiser. relation_map() is a mapping and keeps one target per relation key.',
+    design='DESIGN.md section 4 C12'),
 }
 
 REASON_TODO = 'check not built yet in this round (planned, see DESIGN.md section 8)'
@@ -180,6 +231,8 @@ def main():
              'kind_free_text': 'TLA+ operators on real strings (Morphy rules, form search) + TLC judge'},
             {'name': 'validate', 'path': 'spec/WnValidate.tla', 'serves_properties': ['C18'],
              'kind_free_text': 'TLA+ comprehensions for the 18 validator checks + TLC judge'},
+            {'name': 'query', 'path': 'spec/WnQuery.tla', 'serves_properties': ['C04', 'C10', 'C11', 'C12'],
+             'kind_free_text': 'TLA+ model of Wordnet selection, navigation, relations and ILI expansion + TLC judge'},
         ],
         'checks': checks,
         'not_applicable': [{'property_id': p['id'], 'reason': REASON_TODO}
